@@ -129,10 +129,11 @@ type gjob struct {
 	ttl      *int64
 	deleting bool
 	finish   *int64
+	created  *int64 // metadata.creationTimestamp (the GC must not fall back to it)
 }
 
 func (r *rd) gjob() gjob {
-	return gjob{uid: r.z(), phase: r.enum(3), ttl: r.optZ(), deleting: r.b(), finish: r.optZ()}
+	return gjob{uid: r.z(), phase: r.enum(3), ttl: r.optZ(), deleting: r.b(), finish: r.optZ(), created: r.optZ()}
 }
 func (r *rd) optGjob() *gjob {
 	if r.z() == 0 {
@@ -142,7 +143,7 @@ func (r *rd) optGjob() *gjob {
 	return &g
 }
 func (g gjob) enc() []int64 {
-	return cat([]int64{g.uid, g.phase}, eOpt(g.ttl), []int64{vh.B(g.deleting)}, eOpt(g.finish))
+	return cat([]int64{g.uid, g.phase}, eOpt(g.ttl), []int64{vh.B(g.deleting)}, eOpt(g.finish), eOpt(g.created))
 }
 func encOptGjob(g *gjob) []int64 {
 	if g == nil {
@@ -190,6 +191,9 @@ func (g gjob) build(base int64) *batchv1.Job {
 		}
 		j.Status.State.LastTransitionTime = metav1.Time{Time: t}
 	}
+	if g.created != nil {
+		j.CreationTimestamp = metav1.Time{Time: tm(*g.created + base)}
+	}
 	return j
 }
 
@@ -210,6 +214,7 @@ var lastGC struct {
 	lo, hi int64
 	del    *int64
 	rqs    []int64
+	err    bool
 }
 
 func runGCProcess(lj, fresh *gjob) []int64 {
@@ -260,7 +265,7 @@ func runGCProcess(lj, fresh *gjob) []int64 {
 		}
 		rqs = append(rqs, e.After.Nanoseconds())
 	}
-	lastGC.lo, lastGC.hi, lastGC.del, lastGC.rqs = lo, hi, del, rqs
+	lastGC.lo, lastGC.hi, lastGC.del, lastGC.rqs, lastGC.err = lo, hi, del, rqs, err != nil
 	return cat(tag(1), []int64{vh.B(err != nil)}, tag(2), []int64{int64(len(rqs))}, tag(3), eOpt(del))
 }
 
@@ -1160,7 +1165,7 @@ func laws(sel int, in, got []int64, law func(lsel int, lin []int64, sig string))
 	case 1:
 		law(101, cat(in, got), "")
 	case 3:
-		law(103, cat(in, []int64{lastGC.lo, lastGC.hi}, eOpt(lastGC.del), encList(lastGC.rqs)), "")
+		law(103, cat(in, []int64{lastGC.lo, lastGC.hi}, eOpt(lastGC.del), encList(lastGC.rqs), []int64{vh.B(lastGC.err)}), "")
 	case 10:
 		r := &rd{t: in}
 		st := r.sched()
